@@ -45,7 +45,7 @@ def sig_src(sig):
     parts = []
     for i, nm in enumerate(allp):
         j = i - (len(allp) - ndef)
-        parts.append(nm + (f"={1000 + j}" if j >= 0 else ""))
+        parts.append(nm + (f"=D{j}" if j >= 0 else ""))      # defaults are globals: truthy numbers or falsy objects
         if i == npo - 1:
             parts.append("/")
     if va:
@@ -53,7 +53,7 @@ def sig_src(sig):
     elif kd:
         parts.append("*")
     for i, d in enumerate(kd):
-        parts.append(f"k{i}" + (f"={2000 + i}" if d else ""))
+        parts.append(f"k{i}" + (f"=KD{i}" if d else ""))
     if kwa:
         parts.append("**kw")
     names = allp + [f"k{i}" for i in range(len(kd))]
@@ -80,7 +80,34 @@ def call_src(npos, kws, style):
     return "f(" + ", ".join(pos + kw) + ")"
 
 
+class Falsy:
+    """a default value that is false (like 0, None, '', ()): whether a parameter HAS a default must not depend on its truth"""
+    def __init__(self, tag):
+        self.tag = tag
+
+    def __bool__(self):
+        return False
+
+    def __repr__(self):
+        return self.tag
+
+
+def default_globals(sig):
+    """the values of the default names D0.. / KD0..: plain numbers for half of the signatures, falsy objects for the others
+    (mixed with the builtin falsy constants)"""
+    npo, nn, ndef, va, kwa, kd = sig
+    falsy = (npo * 7 + nn * 5 + ndef * 3 + len(kd) + sum(kd)) % 2 == 1
+    G = {}
+    for j in range(ndef):
+        G[f"D{j}"] = Falsy(f"d{j}") if falsy else 1000 + j
+    for i in range(len(kd)):
+        G[f"KD{i}"] = Falsy(f"kd{i}") if falsy else 2000 + i
+    return G
+
+
 def canon_v(v):
+    if isinstance(v, Falsy):
+        return v.tag
     if isinstance(v, int):
         if v >= 2000:
             return f"kd{v - 2000}"
@@ -186,6 +213,11 @@ SCOPE_TEMPLATES = [
     ("dup-keyword-splat-first", "def f(**kw):\n    return kw\ntry:\n    R = f(**{'a': 1}, a=2)\nexcept TypeError:\n    R = 'TypeError'\n"),
     ("dup-keyword-splat-first-positional", "def g(p, **kw):\n    return (p, kw)\ntry:\n    R = g(1, **{'c': 1}, c=2)\nexcept TypeError:\n    R = 'TypeError'\n"),
     ("dup-keyword-method", "class O:\n    def m(self, **kw):\n        return kw\no1 = O()\ntry:\n    R = o1.m(**{'x': 1}, x=2)\nexcept TypeError:\n    R = 'TypeError'\n"),
+    ("falsy-kwonly-defaults", "def f(a, *, k=0, m=None, n=False, s='', t=(), u=[]):\n    return (a, k, m, n, s, t, u)\nR = [f(1), f(1, k=5), f(2, u=[1])]\n"),
+    ("falsy-positional-defaults", "def f(a=0, b=None, c='', /, d=False, e=()):\n    return (a, b, c, d, e)\nR = [f(), f(1), f(1, 2, 3, 4, 5)]\n"),
+    ("compiled-in-function-closure", "def outer():\n    @pyscript_compile\n    def twice(q):\n        return q * 2\n    def use():\n        return twice(4)\n    return use()\ntry:\n    R = outer()\nexcept NameError:\n    R = 'NameError-family'\n"),
+    ("compiled-in-function-method", "def outer():\n    @pyscript_compile\n    def twice(q):\n        return q * 2\n    class K:\n        def m(self):\n            return twice(5)\n    return K().m()\ntry:\n    R = outer()\nexcept NameError:\n    R = 'NameError-family'\n"),
+    ("compiled-module-level", "@pyscript_compile\ndef twice(q):\n    return q * 2\ndef use():\n    return twice(4)\nR = use()\n"),
     ("posonly-kwargs", "def f(p, /, **kw):\n    return (p, kw)\ntry:\n    R = f(1, p=2)\nexcept TypeError:\n    R = 'TypeError'\n", "posonly-name-in-kwargs"),
 ]
 
@@ -637,6 +669,7 @@ async def run_scope(src):
                 finally:
                     undo()
             else:
+                G["pyscript_compile"] = lambda fn: fn      # for CPython the decorator is the identity
                 exec(compile(src, "t", "exec"), G)  # pylint: disable=exec-used
         except BaseException as e:  # pylint: disable=broad-except
             exc = e
@@ -664,7 +697,7 @@ async def run_bind(payload):
     src = bind_program(ssrc, names, sig[3], sig[4], calls)
     res = {}
     for impl in ("ps", "cpy"):
-        G = {}
+        G = default_globals(sig)
         try:
             if impl == "ps":
                 await ps_exec(src, G)
